@@ -20,7 +20,7 @@ Proof. exact beh_eq_trans. Qed.
 Print Assumptions C01_equiv_transitive.
 
 (* ---- the label-resolution part of the compiler's back end, proved for all inputs ---- *)
-From ES Require Import Ssb.Tables Ssb.Machine Comp.Passes Comp.PopSem Comp.RemoveSem Comp.TableRight Comp.BackEnd Comp.EraseSem Comp.FinalizeSem.
+From ES Require Import Ssb.Tables Ssb.Machine Comp.Passes Comp.PopSem Comp.RemoveSem Comp.TableRight Comp.BackEnd Comp.EraseSem Comp.FinalizeSem Comp.ActSem Comp.StripSem.
 
 (* For the label table LabelFinalizer computes and the op list OpsLabelJumpToRemover builds from it: every
    routine of the op list behaves - for all outcomes of all tests, to every length - like the corresponding
@@ -51,6 +51,23 @@ Theorem C01_finalize_and_remove_preserve : forall rs fin t P',
 Proof. exact finalize_and_remove_preserve. Qed.
 Print Assumptions C01_finalize_and_remove_preserve.
 
+(* strip_last_label keeps the behaviour of every routine (or changes nothing).  [strip_ok] collects, for every
+   round on every routine, the side conditions of that round: shape, arities, unique labels, defined jump targets,
+   the trailing label is only jumped to by plain jumps of its own routine, no cycle of silent moves. *)
+Theorem C01_strip_preserves : forall rs, strip_ok rs = true -> prog_rel rs (strip rs).
+Proof. exact strip_preserves. Qed.
+Print Assumptions C01_strip_preserves.
+
+(* The whole back end of the compiler - strip_last_label, LabelFinalizer, OpsLabelJumpToRemover: every routine of
+   the final op list behaves, for all outcomes of all tests and to every length, like the corresponding routine of
+   the pseudo code the handlers emitted. *)
+Theorem C01_back_end_preserves : forall rs fin t P',
+  finalize (strip rs) = (fin, t) -> remove_all t fin = Ok P' ->
+  strip_ok rs = true -> finalize_ok (strip rs) = true -> backend_ok fin P' = true ->
+  Forall2 (entry_rel (beh_eq (cfg_of_pops rs) (cfg_of_ssb P'))) (pop_entries rs) (ssb_entries P').
+Proof. exact back_end_preserves. Qed.
+Print Assumptions C01_back_end_preserves.
+
 (* non-vacuity: a loop with a test, labels at several places, a cross-routine jump *)
 Example C01_backend_example :
   let rs := [[PLabel 0; POp (mkOp 1 "a" []); PJump (mkOp 2 "Branch" [PInt 1; PInt 2]) 1; POp (mkOp 3 "b" []);
@@ -62,3 +79,9 @@ Example C01_backend_example :
   | Err _ => False
   end.
 Proof. vm_compute. repeat split; reflexivity. Qed.
+
+Example C01_strip_example :
+  let rs := [[POp (mkOp 1 "a" []); PJump (mkOp 2 "Branch" [PInt 1; PInt 2]) 3; PJump (mkOp 3 "Jump" []) 9; PLabel 3;
+              POp (mkOp 4 "End" []); PJump (mkOp 5 "Jump" []) 9; PLabel 9]]%Z%string in
+  strip_ok rs = true /\ strip rs <> rs /\ finalize_ok (strip rs) = true.
+Proof. vm_compute. repeat split; try reflexivity. discriminate. Qed.
